@@ -31,7 +31,7 @@ struct PrimRun {
         bool is256 = bank >= BK_B256; const Bn& mod = is256 ? K().r : K().q; int bits = is256 ? 256 : 384;
         std::vector<uint8_t> h = unhex(op.s.empty() ? "" : op.s[0]); h.resize(bank_bytes[bank]);
         Bn v = Bn::from_le(h.data(), h.size()), full = Bn::sub(Bn(1).shl(bits), Bn(1));
-        switch (kind % 12) {
+        switch (kind % 15) {
         case 0: break;                                            // random
         case 1: v = mod; break; case 2: v = Bn::sub(mod, Bn(1)); break; case 3: v = Bn::add(mod, Bn(1)); break;
         case 4: v = Bn(0); break; case 5: v = Bn(1); break; case 6: v = full; break;
@@ -40,6 +40,9 @@ struct PrimRun {
         case 9: { std::vector<uint8_t> z(h.size(), 0); for (size_t i = 0; i < h.size(); i += 8) z[i + (h[i] & 7)] = (uint8_t) (1u << (h[i + 1] & 7)); v = Bn::from_le(z.data(), z.size()); break; }   // single-bit words
         case 10: v = Bn::from_le(h.data(), h.size()).shr1(); break;
         case 11: { for (size_t i = 0; i < h.size(); i += 4) if (h[i] & 1) memset(&h[i], 0xFF, 4); v = Bn::from_le(h.data(), h.size()); break; }   // 32-bit word boundary patterns
+        case 12: v = Bn::sub(mod, Bn(1)).shr1(); if (h[0] & 1) v = Bn::add(v, Bn(1)); break;                                                                   // (modulus-1)/2, (modulus+1)/2: doubling lands on modulus-1 / modulus+1
+        case 13: { Bn top = Bn::sub(mod, Bn::mod(mod, Bn(1).shl(bits - 64))); v = Bn::add(top, Bn::mod(v, Bn(1).shl(bits - 64))).shr1(); break; }               // half of (top word of the modulus, random lower words): its double shares the top word with the modulus
+        case 14: { Bn top = Bn::sub(mod, Bn::mod(mod, Bn(1).shl(bits - 32))); v = Bn::add(top, Bn::mod(v, Bn(1).shl(bits - 32))).shr1(); break; }               // the same at 32-bit granularity
         }
         if (bank == BK_F384 || bank == BK_F256) v = Bn::mod(v, mod);
         if (bank == BK_T768 || bank == BK_T512) {      // reduction inputs below modulus * 2^bits
@@ -47,7 +50,7 @@ struct PrimRun {
             if (kind % 3 == 0) v = Bn::sub(lim, Bn(1 + (h[0] & 3))); else if (kind % 3 == 1) v = Bn::mod(wide, lim); else v = Bn::mul(Bn::sub(mod, Bn(1 + (h[1] & 1))), Bn::sub(mod, Bn(1 + (h[2] & 1))));
         }
         set(bank, reg, v);
-        env.logf("LOAD b%d r%zu k%d %s", bank, reg % bank_regs[bank], kind % 12, regs[bank][reg % bank_regs[bank]].hexs().c_str());
+        env.logf("LOAD b%d r%zu k%d %s", bank, reg % bank_regs[bank], kind % 15, regs[bank][reg % bank_regs[bank]].hexs().c_str());
     }
     // pair constructors: PAIR wide ra rb kind : make a + b land on a chosen boundary (both registers in the field bank)
     void op_pair(const Op& op) {
@@ -198,11 +201,11 @@ struct PrimScenario : Scenario {
         Rng r(seed); Plan p; p.scenario = name();
         auto kn = [&](const char* k, int64_t d) { auto it = knobs.find(k); return it == knobs.end() ? d : it->second; };
         auto rh = [&](size_t n) { std::vector<uint8_t> b(n); r.fill(b.data(), n); return hex(b.data(), n); };
-        for (int b = 0; b < BK_COUNT; b++) for (size_t i = 0; i < bank_regs[b]; i++) p.ops.push_back({"LOAD", {b, (int64_t) i, r.chance(1, 2) ? 0 : (int64_t) r.below(12)}, {rh(bank_bytes[b])}});
+        for (int b = 0; b < BK_COUNT; b++) for (size_t i = 0; i < bank_regs[b]; i++) p.ops.push_back({"LOAD", {b, (int64_t) i, r.chance(1, 2) ? 0 : (int64_t) r.below(15)}, {rh(bank_bytes[b])}});
         int n = (int) kn("ops", 400);
         for (int i = 0; i < n; i++) {
             int k = r.range(0, 19);
-            if (k == 0) { int b = (int) r.below(BK_COUNT); p.ops.push_back({"LOAD", {b, (int64_t) r.below(8), (int64_t) r.below(12)}, {rh(bank_bytes[b])}}); }
+            if (k == 0) { int b = (int) r.below(BK_COUNT); p.ops.push_back({"LOAD", {b, (int64_t) r.below(8), (int64_t) r.below(15)}, {rh(bank_bytes[b])}}); }
             else if (k == 1 && r.chance(1, 2)) {
                 bool w = r.chance(1, 4); int64_t tr = (int64_t) r.below(4), ra = (int64_t) r.below(8); bool sq = !w && r.chance(1, 3);
                 int lvl = (int) r.below(w ? 9 : 13), rl = (int) r.below(3); std::vector<uint8_t> hb(160); r.fill(hb.data(), 160); std::string vhex;
